@@ -352,6 +352,8 @@ def check_inf_nan_cap(arg, value):
     if isinstance(arg, str):
         if isinf(value) and "i" in arg.lower() and "Inf" not in arg:
             raise ValueError('Inf must be capitalized as "Inf"')
+        if isinf(value) and "inity" in arg.lower():
+            raise ValueError('Infinity must be written as "Inf"')
         if isnan(value) and "NaN" not in arg:
             raise ValueError('NaN must be capitalized as "NaN"')
 
